@@ -4,6 +4,8 @@ gama-g3 executable (4 algorithms) and on GNU_gama::Adj (replay of the
 
 A *case* is the string
     pl=<place>;n=<npts>;T=<type+type...>;S=<pos hgt codes per point, comma separated>;M=<mode>[;PP=<point order>;RP=<record order>]
+       [;RS=<record selection>][;GR=<sizes of the <obs> clusters>][;AL=<algorithms>][;LY=<layout>][;DH=<height code per record>]
+(LY=1: layout "ray" of g3gen with angles next to 0 / 400 gon; DH: - none, f <from-dh>, t <to-dh>, b both, see dh_strings)
 with status codes x (fixed) f (free) c (constr), e.g.  S=xx,ff,cf  and modes
     true   approximate coordinates = generating coordinates
     pert   approximate coordinates displaced by 0.3-0.6 mm in every referenced
@@ -38,6 +40,7 @@ FAR_FACTOR = 600.0
 MAX_PERT = max(abs(v) for p in PERT.values() for v in p)
 NOISE = (0.0031, -0.0024, 0.0017, -0.0029, 0.0022, 0.0035, -0.0019, 0.0027, -0.0033)
 
+IN_LINE = 3e-8      # rad: below this an arc cosine of a normalised dot product cannot tell the angle from 0
 G3_TIMEOUT = 2.0    # s; a run takes 3 ms
 CFG = {"exe": None, "replayer": None, "tmp": None}      # filled by the driver before the pool forks
 
@@ -56,6 +59,10 @@ def case_str(sp):
         s += ";GR=" + ".".join(str(i) for i in sp["grp"])
     if sp.get("algs") is not None:
         s += ";AL=" + "+".join(sp["algs"])
+    if sp.get("lay"):
+        s += ";LY=%d" % sp["lay"]
+    if sp.get("dh") and set(sp["dh"]) != {"-"}:
+        s += ";DH=" + sp["dh"]
     return s
 
 
@@ -73,6 +80,10 @@ def parse_case(s):
         sp["grp"] = tuple(int(c) for c in d["GR"].split("."))
     if "AL" in d:
         sp["algs"] = tuple(d["AL"].split("+"))
+    if "LY" in d:
+        sp["lay"] = int(d["LY"])
+    if "DH" in d:
+        sp["dh"] = d["DH"]
     return sp
 
 
@@ -80,10 +91,10 @@ def parse_case(s):
 _cache = {}
 
 
-def geometry(place, npts):
-    key = ("geo", place, npts)
+def geometry(place, npts, lay=0):
+    key = ("geo", place, npts, lay)
     if key not in _cache:
-        T = G.truth(place, npts)
+        T = G.truth(place, npts, lay)
         X = G.fl(T)
         fr = G.frames_of(X)
         cand = G.candidates(npts)
@@ -94,31 +105,80 @@ def geometry(place, npts):
     return _cache[key]
 
 
-def type_rows(place, npts, t):
+def geo(sp):
+    return geometry(sp["place"], sp["npts"], sp.get("lay", 0))
+
+
+def type_rows(place, npts, t, lay=0):
     """reference Jacobian rows of all candidates of type t: list (per obs) of list of dict rows"""
-    key = ("rows", place, npts, t)
+    key = ("rows", place, npts, t, lay)
     if key not in _cache:
-        T, X, fr, cand = geometry(place, npts)
+        T, X, fr, cand = geometry(place, npts, lay)
         _cache[key] = [R.jacobian_rows(o, X, fr, G.GEOID) for o in cand[t]]
     return _cache[key]
 
 
+# ----------------------------------------------------------------------- instrument / target heights
+# sp["dh"]: one code per record of the network (canonical order, after the selection sp["recs"]):
+#   -  no height given      f  <from-dh>      t  <to-dh>      b  both
+# The values differ from record to record and between the two ends (a value that is carried over
+# from another record or from the other end never fits), 0.15 - 0.44 m, every fourth to-dh negative
+# (antenna reference point below the mark).  They are kept below half a metre because gama's
+# distance row is built from the marks, not from instrument and target: its direction is off by
+# dh/s <= 3e-4 on sights >= 1.6 km, which after the single step from displaced approximate
+# coordinates (<= 1.6 mm between two points) leaves <= 5e-7 m.
+DH_CODES = {"-": (False, False), "f": (True, False), "t": (False, True), "b": (True, True)}
+
+
+def dh_strings(i):
+    f = "%.3f" % (0.150 + 0.045 * (i % 7))
+    t = "%.3f" % ((0.440 - 0.035 * (i % 9)) * (-1.0 if i % 4 == 3 else 1.0))
+    return f, t
+
+
+def dh_alphabet(o, both_only=False):
+    """the codes an observation of this type can carry"""
+    ends = R.DH_ENDS.get(o[0], "")
+    if ends == "ft":
+        return "-b" if both_only else "-ftb"
+    if ends == "f":
+        return "-f"
+    return "-"
+
+
 def records(sp):
     """list of (observation, reference rows) of the network, canonical order"""
-    T, X, fr, cand = geometry(sp["place"], sp["npts"])
+    lay = sp.get("lay", 0)
+    T, X, fr, cand = geometry(sp["place"], sp["npts"], lay)
     out = []
     for t in sp["types"]:
-        rows = type_rows(sp["place"], sp["npts"], t)
+        rows = type_rows(sp["place"], sp["npts"], t, lay)
         for o, rw in zip(cand[t], rows):
             out.append((o, rw))
     if sp.get("recs") is not None:
         out = [out[i] for i in sp["recs"]]
+    mask = sp.get("dh")
+    if mask:
+        assert len(mask) == len(out), "dh mask %r does not fit %d records" % (mask, len(out))
+        for i, code in enumerate(mask):
+            if code == "-":
+                continue
+            o = out[i][0]
+            ends = R.DH_ENDS.get(o[0], "")
+            wf, wt = DH_CODES[code]
+            assert (not wf or "f" in ends) and (not wt or "t" in ends), "record %s cannot carry dh code %s" % (" ".join(o), code)
+            f, t_ = dh_strings(i)
+            key = ("dhrows", sp["place"], sp["npts"], lay, tuple(o), i, code)
+            if key not in _cache:
+                ob = R.Ob(o, (f if wf else None, t_ if wt else None))
+                _cache[key] = (ob, R.jacobian_rows(ob, X, fr, G.GEOID))
+            out[i] = _cache[key]
     return out
 
 
 def classify(sp):
     """reference model of the network: parameters, equations, exact defect, class"""
-    key = ("cls", sp["place"], sp["npts"], sp["types"], sp["status"], sp.get("recs"))
+    key = ("cls", sp["place"], sp["npts"], sp["types"], sp["status"], sp.get("recs"), sp.get("lay", 0), sp.get("dh"))
     if key in _cache:
         return _cache[key]
     ids = G.IDS[:sp["npts"]]
@@ -167,10 +227,11 @@ def classify(sp):
     # vertical with the station's position (1/R rad per metre against |u|/s rad per
     # metre of the horizontal coefficient).  eps_zen = largest such ratio in the network.
     eps_zen = 0.0
-    T_, X_, fr_, cand_ = geometry(sp["place"], sp["npts"])
+    T_, X_, fr_, cand_ = geo(sp)
     for o, _ in recs:
         if o[0] == "zenith":
-            n_, e_, u_ = R.local(X_[o[1]], X_[o[2]])
+            dh_ = getattr(o, "dh", (0.0, 0.0))
+            n_, e_, u_ = R.local(R.lifted(X_[o[1]], dh_[0]), R.lifted(X_[o[2]], dh_[1]))
             eps_zen = max(eps_zen, (1.0 / 6.33e6) / (abs(u_) / (n_ * n_ + e_ * e_ + u_ * u_)))
     if not cols:
         res = dict(cols=cols, neq=neq, defect=None, basis=[], S=S, cls="noparams", feat=feat, eps_zen=eps_zen)
@@ -207,7 +268,7 @@ def classify(sp):
 
 # ----------------------------------------------------------------------- input file
 def approx_coords(sp):
-    T, X, fr, cand = geometry(sp["place"], sp["npts"])
+    T, X, fr, cand = geo(sp)
     ids = G.IDS[:sp["npts"]]
     st = dict(zip(ids, sp["status"]))
     out = {}
@@ -230,7 +291,7 @@ def approx_coords(sp):
 
 
 def observed_strings(sp, recs):
-    T, X, fr, cand = geometry(sp["place"], sp["npts"])
+    T, X, fr, cand = geo(sp)
     out = []
     j = 0
     for o, _ in recs:
@@ -428,7 +489,7 @@ def wls_reference(sp, recs, vals, cl):
     cols = cl["cols"]
     n = len(cols)
     cidx = {c: i for i, c in enumerate(cols)}
-    T, X, fr, cand = geometry(sp["place"], sp["npts"])
+    T, X, fr, cand = geo(sp)
     N = [[0.0] * n for _ in range(n)]
     rhs = [0.0] * n
     for k, ((o, rows), v) in enumerate(zip(recs, vals)):
@@ -518,12 +579,35 @@ def evaluate(sp):
 
     xml, recs, vals, rp = build_input(sp)
     approx = approx_coords(sp)
-    T, X, fr, cand = geometry(sp["place"], sp["npts"])
+    T, X, fr, cand = geo(sp)
     ids = G.IDS[:sp["npts"]]
     # tolerance of "adjusted = generating": 2e-6 m, plus - from displaced approximate
     # coordinates only - what the neglected turn of the vertical in a plane zenith row can
     # leave after the single step of gama-g3: eps_zen (<= 6.5e-3 here) x displacement (<= 0.57 mm)
     tol_xyz = TOL_XYZ + (cl["eps_zen"] * MAX_PERT if mode == "pert" else 0.0)
+    # vacuity counters of the generator (not an oracle): angles whose observed value and whose value
+    # computed from the displaced approximate coordinates lie on different sides of 0 / 400 gon
+    wraps = set()
+    # ... and (diagnostic part of a signature, not an oracle) angles whose two targets lie in one direction
+    # within IN_LINE as seen from the approximate coordinates: their computed value is 0 to 1e-8 rad
+    in_line = 0
+    if mode == "pert":
+        Xap = {pid: tuple(float(c) for c in v) for pid, v in approx.items()}
+        for (o, _), v in zip(recs, vals):
+            if o[0] == "angle":
+                comp = R.obs_value(o, Xap, G.GEOID)[0]
+                d = float(v[0]) * R.GON - comp
+                if d < -math.pi:
+                    Cn("angles_observed_above_0_computed_below_400"); wraps.add("obs>0,comp<400")
+                elif d > math.pi:
+                    Cn("angles_observed_below_400_computed_above_0"); wraps.add("obs<400,comp>0")
+                if abs(R._wrap(comp)) < IN_LINE:
+                    in_line += 1
+        if in_line:
+            Cn("angles_computed_as_0_within_3e-8_rad", in_line)
+    ndh = sum(1 for o, _ in recs if any(getattr(o, "dhs", (None, None))[i] is not None for i in (0, 1)))
+    if ndh:
+        Cn("records_with_from_dh_or_to_dh", ndh)
     base = os.path.join(CFG["tmp"], "c%d" % os.getpid())
     xml_path = base + ".xml"
     with open(xml_path, "w") as f:
@@ -547,7 +631,8 @@ def evaluate(sp):
             V("exit", "%s|%s|%s" % (cls, mode, kind), "algorithm %s: exit status %s, stderr: %s" % (a, rc, " ".join(err.split())[:200]))
             out["outcomes"].append("exit:%s" % kind)
         elif res["nonfinite"]:
-            V("nonfinite", "%s|%s|%s" % (cls, mode, a), "algorithm %s: nan/inf in the adjustment document" % a)
+            V("nonfinite-angle-targets-in-line" if in_line else "nonfinite", "%s|%s|%s" % (cls, mode, a), "algorithm %s: nan/inf in the adjustment document" % a)
+            out["outcomes"].append("nonfinite%s" % ("-angle-targets-in-line" if in_line else ""))
         else:
             okalgs.append(a)
     npar = len(cl["cols"])
@@ -700,6 +785,10 @@ def evaluate(sp):
                         break
         nz = max([abs(r0["points"][p].get(c, 0.0)) for p in r0["points"] for c in ("dn", "de", "du")] + [0.0])
         out["outcomes"].append("%s:defect%d:redundancy%d:%s:corrections-%s" % (cls, cl["defect"], red, mode, "nonzero" if nz > 0.005 else "zero"))
+        for w in sorted(wraps):
+            out["outcomes"].append("angle-through-zero:" + w)
+        if ndh:
+            out["outcomes"].append("heights:%s" % ("all-records" if ndh == len(recs) else "some-records"))
         out["sample"] = "%s -> %s, parameters %d equations %d defect %d redundancy %d, max |dn,de,du| %.3f mm" % (cs, cls, npar, cl["neq"], cl["defect"], red, nz)
     if raw:
         br = bad_rows(sp, recs, vals, rp, results[okalgs[0]][2], pe0, approx) if okalgs else "n/a"
